@@ -8,7 +8,7 @@ import vlib
 PROPS = ("C16",)
 CHECKS = {
     "C16": {
-        "text": "Aead.tla is a cell(byte)-level model, with scaled-down constants (segment 8, tink header 3, tag 2), of the stored "
+        "text": "Aead.tla is a cell(byte)-level model, with scaled-down constants (segment 14, tink header 5, tag 2), of the stored "
                 "object layout written by tink.go PutPart, of readPartHeaderAndDEK, of the seekable reader (seekable.go: segment "
                 "arithmetic, loadSegment, Read, Seek) and of tink-go's sequential reader, over a symbolic AEAD (a segment opens iff "
                 "it is the complete unmodified ciphertext of the writer's segment with that index, last-flag, DEK and part id). "
@@ -172,7 +172,7 @@ def run(ctx):
     ctx.assumptions += [
         "AES-GCM / HKDF / scrypt-derived local KMS are trusted (symbolic AEAD)",
         "one tamper per case; bit flips flip bit 0 of one byte per symbolic cell class",
-        "the scaled model (css 8) and the real layout (css 131072) are related through symbolic boundary classes",
+        "the scaled model (css 14) and the real layout (css 131072) are related through symbolic boundary classes",
         "confidentiality: smoke test only",
     ]
     return ("TLC enumerates all %d applicable (length class x tamper x path) combinations; %s of them run the read-to-end script "
